@@ -758,3 +758,213 @@ def realloc_self_assign(prog, rule):
             else:
                 rule.ok(key, "result goes to a separate variable")
     return n
+
+
+# ------------------------------------------------------------------------------------------------ release of fresh objects
+def release_read_sets(prog):
+    """function name -> fields of its first parameter that it reads (rvalue `p->f`), closed under calls that pass the
+    parameter on; only for release functions (*_free, *_clean, *_free_internal)."""
+    D, P = {}, {}
+    for fn in prog.all_functions():
+        if not fn.params:
+            D[fn.name], P[fn.name] = set(), set()
+            continue
+        p0 = fn.params[0]["name"]
+        lhs_ids = set()
+        for (b, i, r, n) in fn.eval_sites("asg"):
+            if n.get("op") == "=":
+                l = strip(n.get("lhs"))
+                if isinstance(l, dict):
+                    lhs_ids.add(l.get("id"))
+        reads, passes = set(), set()
+        for (b, i, r, n) in fn.eval_sites("member"):
+            base = strip(n.get("base"))
+            if isinstance(base, dict) and base.get("k") == "ref" and base.get("name") == p0 and n.get("arrow") and n.get("id") not in lhs_ids:
+                reads.add(n["name"])
+        for (b, i, r, c) in fn.calls():
+            if c.get("callee") and c.get("args") and path(strip(c["args"][0])) == p0:
+                passes.add(c["callee"])
+        D[fn.name], P[fn.name] = reads, passes
+    R = {k: set(v) for k, v in D.items()}
+    for _ in range(6):
+        ch = False
+        for f, ps in P.items():
+            for g in ps:
+                for x in R.get(g, ()):
+                    if x not in R[f]:
+                        R[f].add(x)
+                        ch = True
+        if not ch:
+            break
+    return {f: v for f, v in R.items() if re.search(r"(_free|_clean|_free_internal)$", f) and v}
+
+
+# value objects are released according to their kind (judged by the kind/field rules), not field by field
+RELEASE_SKIP = ("cif_value_free", "cif_value_clean")
+
+
+def release_sees_initialised(prog, rule):
+    """x = malloc(sizeof *x) ... release(x): every field of x that the release function reads must have been assigned on
+    every path from the allocation to the call (an out-parameter `&x->f` handed to a callee does not count: the callee may
+    fail without storing).  Returns the number of (fresh object, release call) pairs judged."""
+    rel = release_read_sets(prog)
+    n = 0
+    for fn in prog.all_functions():
+        fresh = []
+        for (b, i, r, x) in fn.eval_sites():
+            tgt, rr = None, None
+            if x.get("k") == "asg" and x.get("op") == "=":
+                tgt, rr = path(strip(x.get("lhs"))), strip(x.get("rhs"))
+            elif x.get("k") == "decl":
+                for v in x.get("vars", []):
+                    if v.get("init") is not None:
+                        tgt, rr = v["name"], strip(v["init"])
+            if tgt and isinstance(rr, dict) and rr.get("k") == "call" and rr.get("callee") == "malloc" and tgt.replace("_", "a").isalnum():
+                fresh.append((b.id, i, tgt))
+        for (ab, ai, x) in fresh:
+            after = cfgq.reach(fn, [ab])
+            for (b, i, r, c) in fn.calls():
+                g = c.get("callee")
+                if g not in rel or g in RELEASE_SKIP or not c.get("args") or path(strip(c["args"][0])) != x:
+                    continue
+                if b.id not in after:
+                    continue
+                n += 1
+                missing = []
+                for f in sorted(rel[g]):
+                    stores = [(b2.id, i2) for (b2, i2, r2, a) in fn.eval_sites("asg")
+                              if (path(strip(a.get("lhs"))) or "") == "%s->%s" % (x, f) or (path(strip(a.get("lhs"))) or "").startswith("%s->%s." % (x, f))]
+                    mf = cfgq.MustFact(fn, gen_sites=stores, kill_sites=[(ab, ai)], entry_value=False)
+                    if not mf.at(b.id, i):
+                        missing.append(f)
+                key = "%s:%s(%s)@L%s" % (fn.name, g, x, c.get("l"))
+                if missing:
+                    for f in missing:
+                        rule.violation(fn.file, fn.name, c.get("l"), "uninitialised-at-release:%s:%s" % (fn.name, f),
+                                       "%s(%s) at L%s reads %s->%s, which on some path from the allocation of %s has not been assigned "
+                                       "(e.g. an earlier step failed first): an indeterminate pointer is freed or followed" % (g, x, c.get("l"), x, f, x))
+                else:
+                    rule.ok(key, "fields read by %s (%s) are assigned on every path" % (g, ", ".join(sorted(rel[g]))))
+    return n
+
+
+def uthash_fatal_recovery(prog, rule):
+    """uthash 1.9.9 cannot recover from a failed allocation: HASH_ADD* links the new element in (possibly as the head, with
+    hh.tbl not yet allocated) before it calls uthash_fatal().  cif_api re-defines uthash_fatal as a jump to a failure handler.
+    Any walk of that table afterwards (HASH_ITER / HASH_DEL on the same head, or a release function that iterates it) follows
+    an indeterminate pointer.  Reported per insertion site whose failure handler can reach such a walk."""
+    n = 0
+    walkers = ("cif_packet_free", "cif_pktitr_free", "cif_value_free", "cif_value_clean", "cif_map_clean", "cif_table_value_clean",
+               "cif_map_entry_free_internal")
+    for fn in prog.all_functions():
+        adds = {}
+        for (b, i, r, x) in fn.eval_sites():
+            ms = x.get("ms") or []
+            if not any(m.startswith("HASH_ADD") for m in ms):
+                continue
+            adds.setdefault(b.id, x)
+        if not adds:
+            continue
+        # jumps out of the insertion: goto edges inside the expansion whose statement text belongs to uthash_fatal
+        fatal_targets = set()
+        for b in fn.blocks.values():
+            for r in b.roots:
+                for x in walk_eval(r):
+                    ms = x.get("ms") or []
+                    if "uthash_fatal" in ms and any(m.startswith("HASH_ADD") or m.startswith("HASH_MAKE") or m.startswith("HASH_EXPAND") for m in ms):
+                        for s_ in b.succs:
+                            if s_ is not None:
+                                fatal_targets.add((b.id, s_))
+        # `uthash_fatal(msg)` defined as a bare goto leaves no expression behind: also take edges from blocks of the insertion
+        # (or blocks reachable from them through blocks that hold nothing but uthash text) to failure-handler labels
+        ins_blocks = set()
+        for b in fn.blocks.values():
+            if b.roots and all(any(m.startswith("HASH_") or m.startswith("uthash") for m in (x.get("ms") or [])) for x in b.roots):
+                ins_blocks.add(b.id)
+        for bid in ins_blocks:
+            for s0 in fn.blocks[bid].succs:
+                if s0 is None:
+                    continue
+                s_ = s0
+                # a bare `goto label;` is an empty block of its own
+                hops = 0
+                while not fn.blocks[s_].roots and not fn.blocks[s_].label and len([x for x in fn.blocks[s_].succs if x is not None]) == 1 and hops < 3:
+                    s_ = [x for x in fn.blocks[s_].succs if x is not None][0]
+                    hops += 1
+                lab = fn.blocks[s_].label
+                if lab and lab.get("k") == "label" and str(lab.get("name", "")).endswith("_fail"):
+                    fatal_targets.add((bid, s_))
+        if not fatal_targets:
+            continue
+        n += 1
+        hits = []
+        for (src, tgt) in fatal_targets:
+            reach = cfgq.reach(fn, [tgt])
+            for (b, i, r, c) in fn.calls():
+                if b.id in reach and c.get("callee") in walkers:
+                    hits.append(c)
+            for b in fn.blocks.values():
+                if b.id in reach:
+                    for r in b.roots:
+                        for x in walk_eval(r):
+                            if any(m in ("HASH_ITER", "HASH_DEL", "HASH_DELETE") for m in (x.get("ms") or [])):
+                                hits.append(x)
+        key = "%s:uthash-fatal" % fn.name
+        # whose table is it?  `head = add` inside the expansion names the head; a head reached through a parameter belongs to the caller
+        from .facts import root_var
+        caller_owned = None
+        params = {p_["name"] for p_ in fn.params}
+        for b in fn.blocks.values():
+            for r in b.roots:
+                for x in walk_eval(r):
+                    if x.get("k") == "asg" and x.get("op") == "=" and any(m.startswith("HASH_ADD") for m in (x.get("ms") or [])):
+                        lp = path(strip(x.get("lhs"))) or ""
+                        if lp.endswith("head") and root_var(strip(x.get("lhs"))) in params:
+                            caller_owned = lp
+        if not hits and caller_owned:
+            rule.violation(fn.file, fn.name, fn.line, "uthash-fatal-corrupts-callers-table:%s" % fn.name,
+                           "%s inserts into the caller's table `%s` with uthash_fatal() re-defined as a jump to its failure handler; after a "
+                           "failed allocation inside HASH_ADD the new element may already be linked in (as the head, without a bucket "
+                           "table), the handler frees it, and the function returns CIF_MEMORY_ERROR leaving the caller a table whose "
+                           "next walk (clean, free, look-up) follows freed or indeterminate pointers" % (fn.name, caller_owned))
+            continue
+        if hits:
+            h = hits[0]
+            what = h.get("callee") or (h.get("ms") or ["HASH_ITER"])[-1]
+            rule.violation(fn.file, fn.name, h.get("l"), "uthash-fatal-then-walk:%s" % fn.name,
+                           "%s inserts into a uthash table with uthash_fatal() re-defined as a jump to its failure handler; that handler "
+                           "reaches %s (L%s), which walks the table although the failed HASH_ADD may have linked the new element "
+                           "with no bucket table (uthash 1.9.9 is not recoverable after an allocation failure): invalid read / free"
+                           % (fn.name, what, h.get("l")))
+        else:
+            rule.ok(key, "the failure handler does not walk the table")
+    return n
+
+
+def out_param_not_dangling(prog, rule):
+    """A function that releases the object its out-parameter points to (`release(*out)`) must store into `*out` again before
+    it returns: the caller cannot tell that its pointer now addresses freed memory.  Returns the number of sites judged."""
+    n = 0
+    for fn in prog.all_functions():
+        params = {p["name"] for p in fn.params if (p.get("t") or "").count("*") >= 2}
+        if not params:
+            continue
+        for (b, i, r, c) in fn.calls():
+            g = c.get("callee") or ""
+            if not (g == "free" or re.search(r"(_free|_destroy)$", g)) or not c.get("args"):
+                continue
+            a = strip(c["args"][0])
+            if not (isinstance(a, dict) and a.get("k") == "un" and a.get("op") == "*" and path(strip(a.get("e"))) in params):
+                continue
+            n += 1
+            out = path(strip(a.get("e")))
+            restores = [(b2.id, i2) for (b2, i2, r2, a2) in fn.eval_sites("asg") if path(strip(a2.get("lhs"))) == "*" + out]
+            key = "%s:%s(*%s)@L%s" % (fn.name, g, out, c.get("l"))
+            if restores and cfgq.must_follow(fn, (b.id, i), restores):
+                rule.ok(key, "*%s is re-assigned on every path to the exit" % out)
+            else:
+                rule.violation(fn.file, fn.name, c.get("l"), "out-parameter-dangling:%s:%s" % (fn.name, out),
+                               "%s(*%s) at L%s releases the object the caller's pointer refers to, and on some path the function "
+                               "returns without storing into *%s again: the caller is left with a dangling pointer it will "
+                               "release or use" % (g, out, c.get("l"), out))
+    return n
